@@ -788,10 +788,18 @@ func replayFile(r *ev.Run, path string, merge func(*stats)) {
 		fc := &faultCluster{cluster: cl}
 		fc.arm(k.FailAlloc)
 		rn.exec(fc, k, origin, origin.Info())
+	} else if k.FlipAt > 0 {
+		then, err := storeInfo(storeDesc{ID: k.FlipStore, State: k.FlipTo})
+		if err != nil {
+			r.Inconclusive("replay: %v", err)
+			return
+		}
+		fc := &flipCluster{cluster: cl, at: k.FlipAt, fire: func() { cl.PutStore(then) }}
+		rn.exec(fc, k, origin, origin.Info())
 	} else {
 		rn.exec(cl, k, origin, origin.Info())
 	}
-	if (k.Family == "live-world" || k.Family == "concurrent") && len(rn.st.findings) == 0 {
+	if (k.Family == "live-world" || (k.Family == famWorldChange && k.FlipAt == 0)) && len(rn.st.findings) == 0 {
 		r.Inconclusive("replay: the witness comes from a %s history (world changes / overlapping builds); the case alone did not reproduce it, see witness.case.history", k.Family)
 	}
 	rn.st.shapes["replay"] = struct{}{}
@@ -852,6 +860,7 @@ func main() {
 		randomPhase(r, workers, merge)
 		livePhase(r, workers, merge)
 		concurrentPhase(r, merge)
+		flipPhase(r, workers, merge)
 		r.Exhaustive(true)
 		r.Set("exhaustive_max_stores", r.Pick(4, 5))
 		r.Floor(int64(r.Pick(100000, 100000)))
